@@ -20,6 +20,8 @@ ALL_KINDS = ("P", "L", "H", "S", "PL", "G", "K")
 
 
 def conv(x, ctype):
+    if ctype == "mixed":
+        return float(x)
     if ctype is float:
         return float(x)
     if ctype is F:
@@ -30,14 +32,23 @@ def conv(x, ctype):
     raise ValueError(ctype)
 
 
+MIXED = "mixed"  # one Point / Vector whose coordinates are a Fraction, a float and an int (where integral)
+
+
+def _types(ctype):
+    return (F, float, int) if ctype == MIXED else (ctype, ctype, ctype)
+
+
 def pt(p, ctype=float):
     G = lib()
-    return G.Point(conv(p[0], ctype), conv(p[1], ctype), conv(p[2], ctype))
+    t = _types(ctype)
+    return G.Point(conv(p[0], t[0]), conv(p[1], t[1]), conv(p[2], t[2]))
 
 
 def vec(v, ctype=float):
     G = lib()
-    return G.Vector(conv(v[0], ctype), conv(v[1], ctype), conv(v[2], ctype))
+    t = _types(ctype)
+    return G.Vector(conv(v[0], t[0]), conv(v[1], t[1]), conv(v[2], t[2]))
 
 
 def _build_raw(o, ctype=float, form=0):
